@@ -163,3 +163,40 @@ Section RoundTrip.
     - exfalso. apply nth_error_None in Ex. assert (i < length inputs) by (apply nth_error_Some; congruence). lia.
   Qed.
 End RoundTrip.
+
+(* ---- the loop regenerated from ExprCompiler._update_inout_ports is the hand model -------- *)
+Section GenIsModel.
+  Variables T P Sub W St : Type.
+  Variable assign_leaf : P -> W -> St -> St.
+  Variable contains_sub : P -> option Sub.
+  Variable set_value_var : Sub -> St -> St.
+  Variable visit_setitem : Sub -> St -> St.
+
+  (* what one borrowed place receives: the leaf assignment, then (for a place through a
+     subscript) the recorded __setitem__ write-back *)
+  Definition assign_of (p : P) (w : W) (s : St) : St :=
+    let s := assign_leaf p w s in
+    match contains_sub p with
+    | Some sub => visit_setitem sub (set_value_var sub s)
+    | None => s
+    end.
+
+  Lemma upd_loop_is_model : forall zs s ports,
+    upd_loop T P Sub W St assign_leaf contains_sub set_value_var visit_setitem zs s ports
+    = update_inout T P W St assign_of zs ports s.
+  Proof.
+    induction zs as [|[inp a] zs IH]; intros s ports; simpl; auto.
+    unfold upd_step. destruct (fl_inout (fi_flags inp)).
+    - destruct a as [p|]; destruct ports as [|w ports]; auto.
+      + rewrite <- IH. unfold assign_of. destruct (contains_sub p); reflexivity.
+    - apply IH.
+  Qed.
+
+  Lemma gen_update_is_model : forall inputs args ports s,
+    gen_update_inout_ports T P Sub W St assign_leaf contains_sub set_value_var visit_setitem inputs args ports s
+    = update_inout_ports T P W St assign_of inputs args ports s.
+  Proof.
+    intros. unfold gen_update_inout_ports, update_inout_ports.
+    destruct (zip_strict inputs args); auto. rewrite upd_loop_is_model. reflexivity.
+  Qed.
+End GenIsModel.
